@@ -78,7 +78,7 @@ fn main() {
             if let Some(o) = &out {
                 let _ = check::OUT_PATH.set(o.clone());
             }
-            let budget = budget.unwrap_or(if tier == "quick" { 40.0 } else { 600.0 });
+            let budget = budget.unwrap_or(if tier == "quick" { 40.0 } else { 450.0 });
             let rep = run_families(&prop, &tier, fams, budget, &format!("{}/{}", replays, prop));
             let js = rep.to_json();
             let text = serde_json::to_string_pretty(&js).unwrap();
